@@ -94,42 +94,52 @@ theorem optMin_le_provided (b : ManiaB R) (cap : Nat) :
   unfold maniaProvided
   omega
 
-/-- The specification holds in the nested-search arm. -/
-theorem maniaGenRaw_search_spec (c : ManiaCfg) (b : ManiaB R) (hs : ManiaSearchArm b) :
-    ManiaSpec b (maniaJ c) (optMin b.misses (maniaJ0 c)) (maniaGenRaw c b).accepted (maniaGenRaw c b).state := by
+/-- In the nested-search arm the generated state satisfies the invariant of `best`, phrased with
+the builder's fields: `pK` = the provided value clamped to `judgements − misses` (`0` when absent). -/
+theorem maniaGenRaw_search_good (c : ManiaCfg) (b : ManiaB R) (hs : ManiaSearchArm b) :
+    ManiaGoodB b.n320.isNone b.n300.isNone b.n200.isNone b.n100.isNone b.n50.isNone
+      (maniaJ c - optMin b.misses (maniaJ0 c)) (maniaJ c) (optMin b.misses (maniaJ0 c))
+      (optMin b.n320 (maniaJ c - optMin b.misses (maniaJ0 c)))
+      (optMin b.n300 (maniaJ c - optMin b.misses (maniaJ0 c)))
+      (optMin b.n200 (maniaJ c - optMin b.misses (maniaJ0 c)))
+      (optMin b.n100 (maniaJ c - optMin b.misses (maniaJ0 c)))
+      (optMin b.n50 (maniaJ c - optMin b.misses (maniaJ0 c)))
+      (maniaGenRaw c b).accepted (maniaGenRaw c b).state := by
   obtain ⟨hacc, h2⟩ := hs
   rcases hb : b.acc with _ | acc
   · rw [hb] at hacc; simp at hacc
   rw [maniaGenRaw_search_eq c b acc hb h2]
-  have hwf := maniaCtxOfB_wf c b acc h2
-  have hg := maniaSearchShift_good (maniaCtxOfB c b acc) hwf c.prio
-  generalize (maniaShift (maniaCtxOfB c b acc) c.prio (maniaSearch (maniaCtxOfB c b acc)).val).1 = s at hg
-  generalize (maniaSearch (maniaCtxOfB c b acc)).hit = hit at hg
-  unfold ManiaSearchGood at hg
-  simp only [maniaCtxOfB_nObjects, maniaCtxOfB_misses, maniaCtxOfB_nRemaining] at hg
-  have hx1 : (maniaCtxOfB c b acc).n320 = optMin b.n320 (maniaJ c - optMin b.misses (maniaJ0 c)) := rfl
-  have hx2 : (maniaCtxOfB c b acc).n300 = optMin b.n300 (maniaJ c - optMin b.misses (maniaJ0 c)) := rfl
-  have hx3 : (maniaCtxOfB c b acc).n200 = optMin b.n200 (maniaJ c - optMin b.misses (maniaJ0 c)) := rfl
-  have hx4 : (maniaCtxOfB c b acc).n100 = optMin b.n100 (maniaJ c - optMin b.misses (maniaJ0 c)) := rfl
-  have hx5 : (maniaCtxOfB c b acc).n50 = optMin b.n50 (maniaJ c - optMin b.misses (maniaJ0 c)) := rfl
-  have hy1 : (maniaCtxOfB c b acc).g320 = b.n320 := rfl
-  have hy2 : (maniaCtxOfB c b acc).g300 = b.n300 := rfl
-  have hy3 : (maniaCtxOfB c b acc).g200 = b.n200 := rfl
-  have hy4 : (maniaCtxOfB c b acc).g100 = b.n100 := rfl
-  have hy5 : (maniaCtxOfB c b acc).g50 = b.n50 := rfl
-  rw [hx1, hx2, hx3, hx4, hx5, hy1, hy2, hy3, hy4, hy5] at hg
+  exact maniaSearchShift_good (maniaCtxOfB c b acc) (maniaCtxOfB_wf c b acc h2) c.prio
+
+/-- In the nested-search arm every provided result is clamped to `judgements − misses`
+**individually** and otherwise untouched (`n50`: once a candidate was accepted) — this is what the
+code does when the provided results do not jointly fit. -/
+theorem maniaGenRaw_search_clamped (c : ManiaCfg) (b : ManiaB R) (hs : ManiaSearchArm b) :
+    (∀ n, b.n320 = some n → (maniaGenRaw c b).state.n320 = min n (maniaJ c - optMin b.misses (maniaJ0 c))) ∧
+    (∀ n, b.n300 = some n → (maniaGenRaw c b).state.n300 = min n (maniaJ c - optMin b.misses (maniaJ0 c))) ∧
+    (∀ n, b.n200 = some n → (maniaGenRaw c b).state.n200 = min n (maniaJ c - optMin b.misses (maniaJ0 c))) ∧
+    (∀ n, b.n100 = some n → (maniaGenRaw c b).state.n100 = min n (maniaJ c - optMin b.misses (maniaJ0 c))) ∧
+    ((maniaGenRaw c b).accepted = true →
+      ∀ n, b.n50 = some n → (maniaGenRaw c b).state.n50 = min n (maniaJ c - optMin b.misses (maniaJ0 c))) := by
+  have hg := maniaGenRaw_search_good c b hs
+  refine ⟨?_, ?_, ?_, ?_, ?_⟩
+  · intro n hn; rw [hn] at hg; exact hg.k320 rfl
+  · intro n hn; rw [hn] at hg; exact hg.k300 rfl
+  · intro n hn; rw [hn] at hg; exact hg.k200 rfl
+  · intro n hn; rw [hn] at hg; exact hg.k100 rfl
+  · intro ha n hn; rw [hn] at hg; exact hg.k50 rfl ha
+
+/-- The specification holds in the nested-search arm. -/
+theorem maniaGenRaw_search_spec (c : ManiaCfg) (b : ManiaB R) (hs : ManiaSearchArm b) :
+    ManiaSpec b (maniaJ c) (optMin b.misses (maniaJ0 c)) (maniaGenRaw c b).accepted (maniaGenRaw c b).state := by
+  have hg := maniaGenRaw_search_good c b hs
+  obtain ⟨k1, k2, k3, k4, k5⟩ := maniaGenRaw_search_clamped c b hs
+  generalize (maniaGenRaw c b).state = s at *
+  generalize (maniaGenRaw c b).accepted = hit at *
   generalize maniaJ c = J at *
   generalize optMin b.misses (maniaJ0 c) = m at *
   obtain ⟨l1, l2, l3, l4, l5⟩ := hg.les (optMin_le _ _) (optMin_le _ _) (optMin_le _ _) (optMin_le _ _)
   have hprov := optMin_le_provided b (J - m)
-  have keep : ∀ (g : Option Nat) (n : Nat), g = some n → g.getD 0 ≤ maniaProvided b →
-      maniaProvided b + m ≤ J → g.isNone = false ∧ optMin g (J - m) = n := by
-    intro g n hn hle hfit
-    subst hn
-    simp only [Option.getD_some] at hle
-    refine ⟨rfl, ?_⟩
-    simp only [optMin_some]
-    omega
   have hp1 : b.n320.getD 0 ≤ maniaProvided b := by unfold maniaProvided; omega
   have hp2 : b.n300.getD 0 ≤ maniaProvided b := by unfold maniaProvided; omega
   have hp3 : b.n200.getD 0 ≤ maniaProvided b := by unfold maniaProvided; omega
@@ -140,20 +150,15 @@ theorem maniaGenRaw_search_spec (c : ManiaCfg) (b : ManiaB R) (hs : ManiaSearchA
     apply hg.total_eq
     omega
   · intro n hn hfit _
-    obtain ⟨ho, hv⟩ := keep _ n hn hp1 hfit
-    rw [hg.k320 ho, hv]
+    rw [k1 n hn]; rw [hn] at hp1; simp only [Option.getD_some] at hp1; omega
   · intro n hn hfit _
-    obtain ⟨ho, hv⟩ := keep _ n hn hp2 hfit
-    rw [hg.k300 ho, hv]
+    rw [k2 n hn]; rw [hn] at hp2; simp only [Option.getD_some] at hp2; omega
   · intro n hn hfit _
-    obtain ⟨ho, hv⟩ := keep _ n hn hp3 hfit
-    rw [hg.k200 ho, hv]
+    rw [k3 n hn]; rw [hn] at hp3; simp only [Option.getD_some] at hp3; omega
   · intro n hn hfit _
-    obtain ⟨ho, hv⟩ := keep _ n hn hp4 hfit
-    rw [hg.k100 ho, hv]
-  · intro n hn hacc' hfit _
-    obtain ⟨ho, hv⟩ := keep _ n hn hp5 hfit
-    rw [hg.k50 ho hacc', hv]
+    rw [k4 n hn]; rw [hn] at hp4; simp only [Option.getD_some] at hp4; omega
+  · intro n hn ha hfit _
+    rw [k5 ha n hn]; rw [hn] at hp5; simp only [Option.getD_some] at hp5; omega
 
 /-- The specification holds in **every** arm. -/
 theorem maniaGenRaw_spec (c : ManiaCfg) (b : ManiaB R) :
